@@ -18,6 +18,7 @@ import (
 // C16: NYCT trips extension derives standard fields and is transparent otherwise.
 
 type CaseC16 struct {
+	vt.Env
 	Zone string
 	Msg  *rgen.Msg
 	Opts rgen.NyctTripsOpts
@@ -243,6 +244,7 @@ func propC16(t *rapid.T) {
 	zone := rapid.SampledFrom([]string{"", "America/New_York"}).Draw(t, "zone")
 	m, nN, nPlain, swapSet := genNyctMsg(t, zone)
 	c := CaseC16{Zone: zone, Msg: m, Opts: rgen.NyctTripsOpts{FilterStale: rapid.Bool().Draw(t, "filter"), PreserveM: rapid.Bool().Draw(t, "preserveM")}}
+	c.Env = genEnv(t)
 	_, dropped := rgen.ApplyNyctTrips(m, c.Opts)
 	cls := []string{fmt.Sprintf("filter=%v,preserveM=%v", c.Opts.FilterStale, c.Opts.PreserveM)}
 	if dropped > 0 {
@@ -392,6 +394,7 @@ func TestC16Shared(t *testing.T) {
 			}
 		}
 		c := CaseC16{Zone: zone, Msg: m, Opts: rgen.NyctTripsOpts{FilterStale: rapid.Bool().Draw(t, "filter"), PreserveM: rapid.Bool().Draw(t, "preserveM")}}
+		c.Env = genEnv(t)
 		c16SharedRec.Eval(fmt.Sprintf("shared-train-ids=%d", min(shared, 3)))
 		if shared > 0 {
 			c16SharedRec.NontrivialCase(vt.Fingerprint(c), func() any { return c })
